@@ -56,3 +56,11 @@ func H_C14_cache_index(t *verifrt.T) {
 	t.Cover("slow-path", pa > base+rng)
 	t.Cover("below-window", pa < base)
 }
+
+// VerifSetup creates the three type tokens consecutively (48 bytes apart), so
+// that two of them can fall into one 64-byte cache bucket.
+func VerifSetup() {
+	_ = vcTypeptr(vcA{})
+	_ = vcTypeptr(vcB{})
+	_ = vcTypeptr(vcC{})
+}
